@@ -112,15 +112,31 @@ fn c06_check(s: &mut Sink, bytes: &[u8], pos: usize, also_set_program: bool) -> 
 struct Bufs {
     pkt: Buf,
     mb: Buf,
+    /// a one-byte buffer, allocated after the packet (mappings grow downwards: it lies below it)
+    small: Buf,
+}
+
+fn c05_calc(_prog: &[u8], _pc: usize, _data: &mut dyn std::any::Any) -> u16 {
+    64
 }
 
 /// C05 check of one accepted string: three interpretations with a budget.
 fn c05_check(s: &mut Sink, bytes: &[u8], pos: usize, bufs: &Bufs) {
     let prog = isa::dec(bytes);
-    let configs: [(VmKind, usize); 3] = [(VmKind::NoData, 0), (VmKind::Raw, 1), (VmKind::Mbuff, 2)];
+    // the last configuration registers a stack-usage calculator and a one-byte range of allowed
+    // memory that lies below the packet (so that `address - range start` is meaningful for every
+    // access the program makes through r1)
+    let configs: [(VmKind, usize); 4] = [(VmKind::NoData, 0), (VmKind::Raw, 1), (VmKind::Mbuff, 2), (VmKind::Raw, 3)];
     for (kind, hs) in configs {
         let r = catch(|| {
             let mut vm = AnyVm::new(kind, Some(bytes)).map_err(|e| format!("load: {e}"))?;
+            if hs == 3 {
+                vm.set_calc(c05_calc, Box::new(()))?;
+                let lo = bufs.small.addr().min(bufs.pkt.addr());
+                if lo == bufs.small.addr() {
+                    vm.register_allowed_memory(lo..lo + 1);
+                }
+            }
             if hs >= 1 {
                 vm.register_helper(1, h1)?;
             }
@@ -243,7 +259,7 @@ fn enumerate(s: &mut Sink, mode: Mode, g: &mut u64) {
         (Mode::C12, true) => 4,
     };
     let ctx = context_alphabet();
-    let bufs = Bufs { pkt: Buf::new(16, 0), mb: Buf::new(32, 0) };
+    let bufs = Bufs { pkt: Buf::new(16, 0), mb: Buf::new(32, 0), small: Buf::new(1, 0) };
     let cl_ops = cl_focus_opcodes();
     s.meta.insert("alphabet".into(), json!({
         "focus": "all 256 opcodes x dst {0,9,10,11,15} x src {0,1,2,10,11,15} x off {-n-1..n+1, 32767, -32767, -32768} x imm {0,1,2,-1,-2,8,16,32,64,n,-n,-n-1,i32::MIN,i32::MAX}",
@@ -342,7 +358,7 @@ fn enumerate(s: &mut Sink, mode: Mode, g: &mut u64) {
 
 /// Every opcode x every register byte in a fixed context, and the length classes.
 fn enumerate_special(s: &mut Sink, mode: Mode, g: &mut u64) {
-    let bufs = Bufs { pkt: Buf::new(16, 0), mb: Buf::new(32, 0) };
+    let bufs = Bufs { pkt: Buf::new(16, 0), mb: Buf::new(32, 0), small: Buf::new(1, 0) };
     for opc in 0..=255u8 {
         let idx = *g;
         *g += 1;
@@ -381,6 +397,56 @@ fn enumerate_special(s: &mut Sink, mode: Mode, g: &mut u64) {
         s.count("states", nn);
     }
     s.done("every opcode x all 256 register bytes");
+    // every opcode x a dense immediate set: -1100..=1100, and w + 2^j, w - 2^j for the widths and
+    // small values w (an immediate test that looks at part of the field only)
+    let mut dense: Vec<i32> = (-1100..=1100).collect();
+    for j in 8..32u32 {
+        for w in [0i32, 1, 16, 32, 64, 255] {
+            dense.push(w.wrapping_add(1i32.wrapping_shl(j)));
+            dense.push(w.wrapping_sub(1i32.wrapping_shl(j)));
+        }
+    }
+    dense.sort();
+    dense.dedup();
+    for opc in 0..=255u8 {
+        let idx = *g;
+        *g += 1;
+        if !s.take(idx) {
+            continue;
+        }
+        let mut nn = 0;
+        for imm in &dense {
+            for (dst, src, off) in [(1u8, 2u8, 0i16), (0, 0, 0)] {
+                let f = I::new(opc, dst, src, off, *imm);
+                let prog: Vec<I> = vec![isa::mov64i(0, 0), isa::mov64i(1, 0), f, I::new(0, 0, 0, 0, 0), isa::EXIT];
+                let prog: Vec<I> = if opc == 0x18 { prog } else { vec![isa::mov64i(0, 0), isa::mov64i(1, 0), f, isa::EXIT] };
+                let bytes = isa::enc(&prog);
+                nn += 1;
+                match mode {
+                    Mode::C06 => {
+                        c06_check(s, &bytes, 2, false);
+                    }
+                    Mode::C05 => {
+                        if rbpf::EbpfVmMbuff::new(Some(&bytes)).is_ok() {
+                            c05_check(s, &bytes, 2, &bufs);
+                        }
+                    }
+                    Mode::C12 => {
+                        if rbpf::EbpfVmMbuff::new(Some(&bytes)).is_ok() && (imm.unsigned_abs() <= 300 || imm % 7 == 0) {
+                            c12_check(s, &bytes, 2, Eng::Jit, false);
+                        }
+                    }
+                }
+            }
+        }
+        s.count("evaluations", nn);
+        s.count("states", nn);
+        if mode == Mode::C06 {
+            s.count("transitions", nn);
+            s.count("traces_validated_against_impl", nn);
+        }
+    }
+    s.done("every opcode x dense immediates (-1100..=1100, w +- 2^j)");
     if mode == Mode::C06 {
         let idx = *g;
         *g += 1;
@@ -473,7 +539,7 @@ fn family_programs(thorough: bool) -> Vec<(String, Vec<I>)> {
 
 fn families(s: &mut Sink, mode: Mode, g: &mut u64) {
     let thorough = s.tier == Tier::Thorough;
-    let bufs = Bufs { pkt: Buf::new(16, 0), mb: Buf::new(32, 0) };
+    let bufs = Bufs { pkt: Buf::new(16, 0), mb: Buf::new(32, 0), small: Buf::new(1, 0) };
     let fams = family_programs(thorough);
     for chunk in fams.chunks(16) {
         let idx = *g;
@@ -645,10 +711,14 @@ fn families(s: &mut Sink, mode: Mode, g: &mut u64) {
 
 /// C05: one interpretation per VM kind with a given instruction budget.
 fn c05_check_budget(s: &mut Sink, bytes: &[u8], pos: usize, bufs: &Bufs, budget: u64, class: &str) {
-    for kind in [VmKind::NoData, VmKind::Raw] {
+    for (kind, extra) in [(VmKind::NoData, false), (VmKind::Raw, false), (VmKind::NoData, true)] {
         let r = catch(|| {
             let mut vm = AnyVm::new(kind, Some(bytes)).map_err(|e| format!("load: {e}"))?;
             vm.register_helper(1, h1)?;
+            if extra {
+                vm.set_calc(c05_calc, Box::new(()))?;
+                vm.register_allowed_memory(bufs.small.addr()..bufs.small.addr() + 1);
+            }
             bufs.pkt.fill(&[0x11u8; 16]);
             rbpf::verif_hooks::set_insn_budget(Some(budget));
             let mem = if kind == VmKind::NoData { vm::empty_raw() } else { bufs.pkt.raw() };
@@ -942,7 +1012,7 @@ pub fn replay_verify(v: &Value) -> Vec<String> {
 pub fn replay_interp_total(v: &Value) -> Vec<String> {
     let bytes = unhex(v["prog"].as_str().unwrap());
     let mut s = Sink::new("replay", Tier::Quick, 0, 1, None, None, 3600);
-    let bufs = Bufs { pkt: Buf::new(16, 0), mb: Buf::new(32, 0) };
+    let bufs = Bufs { pkt: Buf::new(16, 0), mb: Buf::new(32, 0), small: Buf::new(1, 0) };
     if rbpf::EbpfVmMbuff::new(Some(&bytes)).is_ok() {
         match v["budget"].as_u64() {
             Some(b) => c05_check_budget(&mut s, &bytes, 0, &bufs, b, v["class"].as_str().unwrap_or("family")),
